@@ -8,6 +8,7 @@ import (
 	"os"
 	"path/filepath"
 	"strings"
+	"sync"
 
 	"golang.org/x/tools/go/packages"
 	"golang.org/x/tools/go/ssa"
@@ -90,7 +91,11 @@ func (p *Program) isRepoPkg(path string) bool {
 }
 
 // FindFunc resolves a contract key ("pkg.Func", "(pkg.T).M", "(*pkg.T).M").
+var findMu sync.Mutex
+
 func (p *Program) FindFunc(key string) *ssa.Function {
+	findMu.Lock()
+	defer findMu.Unlock()
 	if f, ok := p.funcs[key]; ok {
 		return f
 	}
